@@ -331,13 +331,16 @@ struct RefJoin {
     fin: Arc<AtomicBool>,
     tid: Tid,
     jid: usize,
+    /// the last registration was made with the task's own waker (not with a sub-executor's)
+    top: bool,
 }
 impl Future for RefJoin {
     type Output = ();
-    fn poll(self: Pin<&mut Self>, cx: &mut Context<'_>) -> Poll<()> {
+    fn poll(mut self: Pin<&mut Self>, cx: &mut Context<'_>) -> Poll<()> {
         if self.fin.load(Ordering::SeqCst) {
             return Poll::Ready(());
         }
+        self.top = cx.waker().will_wake(&noop_waker());
         let mut w = self.w.lock().unwrap();
         w.cur_wait.push(Src::Task(self.jid, self.tid));
         if let Some(t) = w.tasks[self.tid].as_mut() {
@@ -348,7 +351,13 @@ impl Future for RefJoin {
 }
 impl Drop for RefJoin {
     fn drop(&mut self) {
-        self.w.lock().unwrap().joins_gone[self.jid] = true;
+        // A join handle never takes back the waker it has queued with the joined task: abandoned (a
+        // losing select branch), it still wakes the task that polled it when the joined task finishes,
+        // and until then the real runtime sees a live copy of that poll's waker. That holds for the
+        // task's own waker; a registration made through a sub-executor's waker dies with the future.
+        if !self.top {
+            self.w.lock().unwrap().joins_gone[self.jid] = true;
+        }
     }
 }
 
@@ -425,7 +434,7 @@ impl Rt for RefRt {
                     w.joins_gone.push(false);
                     w.joins_gone.len() - 1
                 };
-                RefJoin { w: w.clone(), fin: finished.clone(), tid, jid }.boxed()
+                RefJoin { w: w.clone(), fin: finished.clone(), tid, jid, top: true }.boxed()
             }),
             abort: {
                 let w = self.w.clone();
@@ -1232,6 +1241,13 @@ impl RefRt {
             Some(t) => t.aborted.load(Ordering::SeqCst) || w.in_aborted(t.group),
             None => owner.is_some(), // the owning task is gone
         }
+    }
+    /// is the request awaited by a task the witness can see (not by the invisible task of an opaque
+    /// builder chain, whose eviction leaves no trace)?
+    pub fn owner_is_visible(&self, path: &Path) -> bool {
+        let mut w = self.w.lock().unwrap();
+        let owner = w.cell_by_path(path).and_then(|c| c.owner);
+        owner.map_or(false, |t| w.tasks.get(t).and_then(|t| t.as_ref()).map_or(false, |t| t.path.is_some()))
     }
     pub fn consumer_alive(&self, path: &Path) -> bool {
         let mut w = self.w.lock().unwrap();
